@@ -1,10 +1,10 @@
 (* Property C08 — Shortest-path options restrict the answer but never change it.
    Only pinned statements; proofs live in Proofs/ShortestPathOk.v (spec level) and
    Proofs/DijkstraModelOk.v (the transcribed algorithm). *)
-From Coq Require Import List Bool ZArith QArith.
-From GV Require Import Base.Outcome Model.GState Model.Query Model.Dijkstra.
+From Coq Require Import String List Bool ZArith QArith.
+From GV Require Import Base.Outcome Base.AMap Model.GState Model.Creation Model.Query Model.Dijkstra.
 From GV Require Import Spec.ShortestPathDef Spec.ShortestPathCheck Proofs.ShortestPathOk.
-From GV Require Import Proofs.DijkstraLoopOk Proofs.DijkstraModelOk Proofs.InvolvingOk.
+From GV Require Import Proofs.DijkstraLoopOk Proofs.DijkstraModelOk Proofs.InvolvingOk Proofs.DijkstraEntryOk.
 Import ListNotations.
 
 (* ---------------------------------------------------------------- the model *)
@@ -38,6 +38,46 @@ Theorem C08_model_fast_path_agrees : forall (T A : Type) (g : gstate T A) (weigh
   dijkstra g weighted src None None fo wp = Ok r ->
   forall t x, (exists i, In (t, i) rb /\ sp_distance i = x) <-> (exists i, In (t, i) r /\ sp_distance i = x).
 Proof. exact @model_fast_path_agrees. Qed.
+
+(* The entry points agree: multi_source is one single_source call per listed source,
+   all_pairs is the per-source function ([run_from_index], the same one single_source
+   calls) at every node index followed by the same name conversion; both collected
+   into a map keyed by source name. *)
+Theorem C08_model_multi_source_per_source : forall (T A : Type) (teqb : T -> T -> bool) threads
+    (g : gstate T A) weighted sources target cutoff fo wp mm,
+  multi_source teqb threads g weighted sources target cutoff fo wp = Ok mm ->
+  exists l,
+    Forall2 (fun s sm => fst sm = s /\ single_source teqb g weighted s target cutoff fo wp = Ok (snd sm)) sources l /\
+    mm = collect_map teqb l.
+Proof. exact @multi_source_per_source. Qed.
+
+Theorem C08_model_all_pairs_per_source : forall (T A : Type) (teqb : T -> T -> bool) threads
+    (g : gstate T A) weighted target cutoff fo wp mm,
+  all_pairs teqb threads g weighted target cutoff fo wp = Ok mm ->
+  exists ti vecs l,
+    match target with
+    | Some t => exists i, get_node_index teqb g t = Ok i /\ ti = Some i
+    | None => ti = None
+    end /\
+    Forall2 (fun i iv => fst iv = i /\ run_from_index g weighted i target ti cutoff fo wp = Ok (snd iv))
+            (seq 0 (number_of_nodes g)) vecs /\
+    Forall2 (fun iv sm => name_of_index "dijkstra.rs:132" g (fst iv) = Ok (fst sm) /\
+                          convert_shortest_path_info_vec_to_t_map teqb g (snd iv) = Ok (snd sm)) vecs l /\
+    mm = collect_map teqb l.
+Proof. exact @all_pairs_per_source. Qed.
+
+Theorem C08_model_single_source_unfold : forall (T A : Type) (teqb : T -> T -> bool)
+    (g : gstate T A) weighted source target cutoff fo wp m,
+  single_source teqb g weighted source target cutoff fo wp = Ok m ->
+  exists si ti r,
+    get_node_index teqb g source = Ok si /\
+    match target with
+    | Some t => exists i, get_node_index teqb g t = Ok i /\ ti = Some i
+    | None => ti = None
+    end /\
+    run_from_index g weighted si target ti cutoff fo wp = Ok r /\
+    convert_shortest_path_info_vec_to_t_map teqb g r = Ok m.
+Proof. exact @single_source_unfold. Qed.
 
 (* get_all_shortest_paths_involving(x) keeps exactly the all-pairs entries that have a
    path with x strictly inside (the slice test path[1..len-1].contains(x)); the all-pairs
